@@ -5,11 +5,13 @@ TYPES = ["A", "AAAA", "TXT", "NS"]
 
 
 def universe_scenarios(r, wd, n, depth_choices, families, protocols, expect_truth, nq=(2, 4), forwarding_p=0.0,
-                       glue="mixed", two_glue_p=0.3):
+                       glue="mixed", two_glue_p=0.3, partial_hints_p=0.0, fault_p=0.0):
     unis = []
     for i in range(n):
-        u = rc.build_universe(r, depth=r.choice(depth_choices), nservers=r.choice([1, 2, 3]), families=families, glue=glue,
-                              two_glue_p=two_glue_p)
+        partial = r.random() < partial_hints_p
+        u = rc.build_universe(r, depth=r.choice(depth_choices), nservers=r.choice([1, 2, 3]),
+                              families="dual" if partial else families, glue=glue, two_glue_p=two_glue_p, share_root=partial)
+        u["partial"] = partial
         u["fwd"] = r.random() < forwarding_p
         unis.append(u)
     items = [{"universe": u["universe"], "ask": rc.asks_for(u, TYPES, "10.9.9.9" if u["fwd"] else None),
@@ -25,8 +27,24 @@ def universe_scenarios(r, wd, n, depth_choices, families, protocols, expect_trut
         if chains and r.random() < 0.6:
             c = r.choice(chains)
             qs += [{"name": c["name"], "type": "TXT"}, {"name": c["name"], "type": "TXT"}, {"name": c["name"], "type": "A"}]
-        scs.append(rc.scenario([u["hints"]], [], "forwarding" if u["fwd"] else "recursive", qs,
-                               table=rc.table_entries(tab), default={"rcode": 5}, protocol=r.choice(protocols),
+        protocol = r.choice(protocols)
+        hints = u["hints"]
+        if u["partial"]:
+            # the hints only give the root servers' addresses of the NON-preferred family; the preferred ones are
+            # learnt later, as glue of a referral to a zone served by the same hosts
+            protocol = r.choice(["prefer-v4", "prefer-v6"])
+            keep = "AAAA" if protocol == "prefer-v4" else "A"
+            hints = dict(hints)
+            hints["recs"] = [x for x in hints["recs"] if x["type"] in ("NS", keep)]
+        if fault_p and r.random() < fault_p:
+            for q in qs:
+                # a name server that fails on both transports (UDP attempt i, TCP attempt i + 1)
+                i = r.randint(0, 3)
+                f = r.choice([{"kind": "rcode", "rcode": 2}, {"kind": "drop"}, {"kind": "error"}, {"kind": "wrong_id"},
+                              {"kind": "rcode", "rcode": 5}])
+                q["faults"] = {str(i): f, str(i + 1): f}
+        scs.append(rc.scenario([hints], [], "forwarding" if u["fwd"] else "recursive", qs,
+                               table=rc.table_entries(tab), default={"rcode": 5}, protocol=protocol,
                                port=r.choice([53, 53, 5353, 1053]), universe=u["universe"], expect_truth=expect_truth,
                                hostaddrs=u["hostaddrs"]))
     return scs
